@@ -62,7 +62,8 @@ META = {
     "not_decided": (
         "node-for-node equality with the directive spelling for all attribute values and bodies; what the docutils option "
         "converters do with a value; what html.parser accepts as a top-level element; third-party transforms that delete raw nodes; "
-        "writes to the configuration that are not in-place set operations (C13/C15)"
+        "writes to the configuration that are not in-place set operations (C13/C15); recursion depth on pathologically nested input "
+        "(Element.deepcopy/render/strip recurse once per nesting level: ~1200 nested <b> inside a div.admonition exhaust the interpreter stack - a runtime quantity)"
     ),
     "trusted_base": [
         "CPython ast and re._parser",
@@ -962,8 +963,27 @@ def _fresh_tokenizer(cx: Ctx, rep: Report) -> None:
     k = f"{tk.fq}|parser state is per fragment"
     site = tm.site(feed)
 
-    def is_ctor(v) -> bool:
-        return isinstance(v, ast.Call) and bool(dotted(v.func)) and cx.corpus.find_class(tm.resolve(dotted(v.func))) is not None
+    def is_ctor(v, depth: int = 0) -> bool:
+        """a constructor call, or a call of an un-memoised package factory whose every result is one"""
+        if not (isinstance(v, ast.Call) and dotted(v.func)):
+            return False
+        if cx.corpus.find_class(tm.resolve(dotted(v.func))) is not None:
+            return True
+        fac = cx.corpus.find_function(tm.resolve(dotted(v.func)))
+        if fac is None or fac.is_lambda or depth > 1 or fac.module is not tm or fac.decorators():
+            return False
+        rets = [n for n in fac.local_nodes() if isinstance(n, ast.Return)]
+        return bool(rets) and all(r.value is not None and is_ctor(r.value, depth + 1) for r in rets)
+
+    def memoised(v) -> str | None:
+        """name of the memoising decorator when ``v`` calls a cached package factory"""
+        if isinstance(v, ast.Call) and dotted(v.func):
+            fac = cx.corpus.find_function(tm.resolve(dotted(v.func)))
+            if fac is not None and not fac.is_lambda:
+                for d_ in fac.decorators():
+                    if d_.split(".")[-1] in ("lru_cache", "cache", "cached", "memoize", "memoized"):
+                        return f"@{d_} {fac.name}"
+        return None
 
     cfg = get_cfg(tk)
     fst = cfg.stmt_of(feed)
@@ -986,11 +1006,13 @@ def _fresh_tokenizer(cx: Ctx, rep: Report) -> None:
             rep.violation("C17.R1", k, site, f"`{recv.id}` is one parser object shared by all calls: an earlier fragment that leaves html.parser in CDATA mode or with buffered text (an inline `<script>`, an unfinished tag) makes later <img>/<div class=admonition> fragments tokenize to nothing, so they are not converted")
             return
         globs = {nm for n in tk.local_nodes() if isinstance(n, ast.Global) for nm in n.names} | set(tm.const_nodes)
-        if any(isinstance(v, ast.Name) and v.id in globs and v.id not in tk.params for v in vals) or any(isinstance(v, (ast.Subscript, ast.Attribute)) or (isinstance(v, ast.Call) and isinstance(v.func, ast.Attribute) and v.func.attr in ("get", "setdefault", "pop")) for v in vals) or any(cfg.guards(cfg.stmt_of(x)) for x in stores):
+        if any(memoised(v) for v in vals) or any(isinstance(v, ast.Name) and v.id in globs and v.id not in tk.params for v in vals) or any(isinstance(v, (ast.Subscript, ast.Attribute)) or (isinstance(v, ast.Call) and isinstance(v.func, ast.Attribute) and v.func.attr in ("get", "setdefault", "pop")) for v in vals) or any(cfg.guards(cfg.stmt_of(x)) for x in stores):
             rep.violation("C17.R1", k, site, f"`{recv.id}` can be a parser object kept from an earlier call (`{short(vals[0], 40) if vals else '?'}`) and is fed without reset(): html.parser state (CDATA mode after `<script>`, buffered text) leaks into this fragment, so a later <img>/<div class=admonition> is not converted")
             return
         raise Unsupported(f"{tk.qualname}: cannot see where `{recv.id}` comes from")
-    if isinstance(recv, (ast.Subscript, ast.Attribute)) or (isinstance(recv, ast.Call) and not is_ctor(recv)):
+    if isinstance(recv, ast.Call) and not memoised(recv) and not (isinstance(recv.func, ast.Attribute) and recv.func.attr in ("get", "setdefault", "pop")):
+        raise Unsupported(f"{tk.qualname}: cannot tell whether `{short(recv, 40)}` builds a new parser for every call")
+    if isinstance(recv, (ast.Subscript, ast.Attribute, ast.Call)):
         rep.violation("C17.R1", k, site, f"`{short(recv, 40)}` is a stored parser object fed without reset(): html.parser state (CDATA mode after `<script>`, buffered text) leaks from earlier fragments, so a later <img>/<div class=admonition> is not converted")
         return
     raise Unsupported(f"{tk.qualname}: receiver of feed() not understood: {short(recv, 40)}")
@@ -2476,6 +2498,7 @@ def mutants(corpus: Corpus):
             ctor = ast.get_source_segment(tk.module.src, asg.value)
             ind = " " * asg.col_offset
             add("c17-tokenizer-cached-in-dict", "C17.R1", splice(tk.module.src, asg, f"key = ({', '.join(tk.params[1:])})\n{ind}if key not in _TOKENIZERS:\n{ind}    _TOKENIZERS[key] = {ctor}\n{ind}{nm} = _TOKENIZERS[key]").replace(f"def {tk.name}(", f"_TOKENIZERS: dict = {{}}\n\n\ndef {tk.name}(", 1), "parser state", rel_=tk.module.rel, note="seed class: parser object re-used between fragments")
+            add("c17-tokenizer-from-lru-cache", "C17.R1", splice(tk.module.src, asg.value, f"_get_tokenizer({', '.join(tk.params[1:])})").replace(f"def {tk.name}(", f"import functools\n\n\n@functools.lru_cache(maxsize=8)\ndef _get_tokenizer({', '.join(tk.params[1:])}):\n    return {ctor}\n\n\ndef {tk.name}(", 1), "parser state", rel_=tk.module.rel, note="seed class: memoised factory")
             add("c17-tokenizer-lazily-created-global", "C17.R1", splice(tk.module.src, asg, f"global _PARSER\n{ind}if _PARSER is None:\n{ind}    _PARSER = {ctor}\n{ind}{nm} = _PARSER").replace(f"def {tk.name}(", f"_PARSER = None\n\n\ndef {tk.name}(", 1), "parser state", rel_=tk.module.rel)
         else:
             out.append(("c17-tokenizer-cache-mutants", "tokenize_html does not assign a freshly constructed parser to a local"))
